@@ -4,8 +4,8 @@
 (*   InitF/NextF  CbrFormula: the encoder's integer expression against the meaning of "round"      *)
 (*   InitB/NextB  the constrained-VBR bucket: reservoir bounded, hence bytes bounded over any run   *)
 (*   InitM/NextM  the multistream budget loop: NeverOverrun                                        *)
-(*   InitH/NextH  behaviour generation: histories that switch VBR/CVBR/CBR, bitrate, buffer and    *)
-(*                duration between packets (printed, replayed through the real encoder)            *)
+(*   InitH/NextH  behaviour generation: histories that switch VBR/CVBR/CBR, bitrate, buffer,        *)
+(*                duration and coding mode between packets (printed, replayed through the real encoder)            *)
 EXTENDS Cvbr, TLC
 CONSTANTS BrLo, BrStep, BrCount,   \* dense bitrate grid  BrLo + i*BrStep, i < BrCount
           BrCoarse,                \* bitrates checked against every buffer size 1..MbAll
@@ -87,7 +87,8 @@ Modes == {"cbr", "vbr", "cvbr"}
 Brs   == {"lo", "mid", "hi", "auto", "max"}
 Bufs  == {"tiny", "small", "ample", "huge"}
 Durs  == {"short", "20", "long"}
-InitH == st \in {[k |-> "G", h |-> << <<"mode", m>>, <<"br", b>> >>, cur |-> [mode |-> m, br |-> b, buf |-> "ample", dur |-> "20"]] :
+Vias  == {"auto", "hybrid", "celt"}      \* how the coding mode is steered (OPUS_SET_FORCE_MODE), never touching the VBR ctls
+InitH == st \in {[k |-> "G", h |-> << <<"mode", m>>, <<"br", b>> >>, cur |-> [mode |-> m, br |-> b, buf |-> "ample", dur |-> "20", via |-> "auto"]] :
                    m \in Modes, b \in Brs}
 NextH ==
   /\ st.k = "G" /\ Len(st.h) < GenDepth + 2
@@ -95,6 +96,7 @@ NextH ==
      \/ \E b \in Brs \ {st.cur.br}     : st' = [st EXCEPT !.h = Append(st.h, <<"br", b>>), !.cur.br = b]
      \/ \E b \in Bufs \ {st.cur.buf}   : st' = [st EXCEPT !.h = Append(st.h, <<"buf", b>>), !.cur.buf = b]
      \/ \E d \in Durs \ {st.cur.dur}   : st' = [st EXCEPT !.h = Append(st.h, <<"dur", d>>), !.cur.dur = d]
+     \/ \E w \in Vias \ {st.cur.via}   : st' = [st EXCEPT !.h = Append(st.h, <<"via", w>>), !.cur.via = w]
 Emit == (st.k = "G" /\ Len(st.h) = GenDepth + 2) => PrintT(<<"HIST", ToString(st.h)>>)
 
 SpecF == InitF /\ [][NextF]_vars
